@@ -47,6 +47,9 @@ func c15Case(w *rt.W, from, to, probe int64, fromNil, toNil bool, extraProbes ..
 	args := func(p int64) map[string]any {
 		return rt.Args("from_ordinal", from, "to_ordinal", to, "probe_ordinal", p, "from_nil", fromNil, "to_nil", toNil, "from", ordText(from), "to", ordText(to), "probe", ordText(p))
 	}
+	if !fromNil && !toNil && from == to && (probe+from)%2 == 0 {
+		tp = fp // the caller passes one and the same variable as both bounds
+	}
 	f, err := date.FilterFromTo(fp, tp)
 	w.Eval(1)
 	wantErr := !fromNil && !toNil && from > to
